@@ -17,6 +17,26 @@ ASSUMPTIONS = [
 ]
 
 
+_KEPT = {}
+
+
+def _edited_in_place(space, k):
+    """A user may edit a Dict space after it has been used (gymnasium's Dict.__setitem__): what the
+    library computes must follow the space as it is NOW.  For Dict spaces, every other case reuses the
+    Dict object of an earlier case with the same keys, its children replaced one by one."""
+    from gymnasium.spaces import Dict
+    if not isinstance(space, Dict) or k % 2:
+        return space
+    sig = tuple(space.spaces.keys())
+    old = _KEPT.get(sig)
+    if old is None:
+        _KEPT[sig] = space
+        return space
+    for key, child in space.spaces.items():
+        old[key] = child
+    return old
+
+
 def impl_ravel(inp):
     from abmarl.sim.wrappers.ravel_discrete_wrapper import ravel, unravel, ravel_space, check_space
     spec, shapes, xp, k = inp
@@ -28,6 +48,7 @@ def impl_ravel(inp):
         S.NARROW_MD = False
     if not check_space(space):
         return [0]
+    space = _edited_in_place(space, k)
     rng = random.Random(k)
     p = S.sx_to_point(space, xp, rng)
     rp = ravel(space, p)
